@@ -305,7 +305,7 @@ def run(ctx):
         all_lines += lines
     outs = ctx.driver("expr", all_lines)
     for e, src, tsrc, datas, ds, off in metas:
-        compare_case(ctx, e, src, tsrc, outs[off:off + 3 * len(MODES)], datas, ds)
+        X.guarded(ctx, compare_case, ctx, e, src, tsrc, outs[off:off + 3 * len(MODES)], datas, ds)
 
 
 def replay(ctx, data):
